@@ -7,8 +7,8 @@ import sqlite3
 import coregen as cg
 
 PROP = 'C06'
-LEAN_TARGETS = ['MorphKgc.Props.C06']
-GEN_KEYS = ['null']
+LEAN_TARGETS = ['MorphKgc.Props.C06', 'MorphKgc.Props.CoreFuncs']
+GEN_KEYS = ['null', 'core']
 M = 'MorphKgc.Props.C06'
 THEOREMS = [{'name': f'Props.C06.{n}', 'module': M} for n in [
     'C06_gen_kind', 'C06_gen_remove_nulls', 'C06_default_na',
@@ -28,6 +28,8 @@ THEOREMS = [{'name': f'Props.C06.{n}', 'module': M} for n in [
     'C06_frame_can_deliver_null', 'C06_list_can_deliver_null',
     'C06_current_order', 'C06_never_a_term_current', 'C06_current_json_drop', 'C06_F2_current', 'C06_F5_current', 'C06_F1_current',
 ]]
+# the columns a rule is NULL-filtered on: `_get_references_in_rml_rule` as translated from /repo = Model.refsOfRule
+THEOREMS += [{'name': f'Props.CoreFuncs.{n}', 'module': 'MorphKgc.Props.CoreFuncs'} for n in ['refs_of_rule_eq', 'refs_of_rule_subject_eq']]
 RULE = ('logical tables of 0-5 rows over 2-4 columns with a NULL in every position (rate 0.3) and values that are NA tokens or contain them, '
         'rendered as CSV, TSV, JSON file (nested keys, null / absent), XML (absent / empty element, absent attribute), SQLite table, SQLite query, '
         'DataFrame (None / nan / <NA> / NaT), list of dicts, dict x na_values in {default, empty, custom, substrings of values} x 1-2 triples maps '
